@@ -106,6 +106,10 @@ def gen_feedback(rng, m, cfg, nodes):
         return addr, C('MSG_BM_CURRENT'), bytes([num, rb(rng)])
     revs = (b or {}).get('reversers') or []
     name = rng.choice(revs)['cv'].encode() if revs and rng.random() < 0.85 else b'4711'
+    if revs and rng.random() < 0.3:
+        # names that are NOT the configured CV but close to it: a prefix, an extension, the empty name, a different last character
+        cv = rng.choice(revs)['cv'].encode()
+        name = rng.choice([cv[:-1], cv[:1], b'', cv + b'0', cv + cv, cv[:-1] + bytes([cv[-1] ^ 1]), b'0' + cv])
     val = rng.choice([b'0', b'3', b'1', b'30', b'03', b'9'])
     return addr, C('MSG_VENDOR'), bytes([len(name)]) + name + bytes([len(val)]) + val
 
